@@ -1,0 +1,23 @@
+//go:build verif
+
+// Contracts for message-level packing, lengths and compression policy (msg.go).  Comment-only file.
+
+package dns
+
+//@ func (*Msg).isCompressible [C04 C08]
+//@   requires dns != nil
+//@   ensures ret0 == (len(dns.Question) > 1 || len(dns.Answer) > 0 || len(dns.Ns) > 0 || len(dns.Extra) > 0)
+//@   pure
+
+// compression is requested from the section packers only when the message asks for it and has something to
+// share, and then always together with a (fresh, hence empty) internal compression map
+//@ func (*Msg).packBufferWithCompressionMap [C04]
+//@   opt no-safety
+//@   requires pol: compress ==> dns.Compress && (len(dns.Question) > 1 || len(dns.Answer) > 0 || len(dns.Ns) > 0 || len(dns.Extra) > 0)
+//@   requires map: compress ==> compression.int != nil && fresh(compression.int)
+//@   requires nomap: !compress ==> compression.int == nil && compression.ext == nil
+
+//@ func (*Msg).PackBuffer [C04 C08]
+//@   requires dns != nil
+//@ func (*Msg).Pack [C04 C08]
+//@   requires dns != nil
